@@ -1027,7 +1027,7 @@ def annotate_fn(f, override_requires=None, canary=False, drop_body=False):
                 if toks[m].text in (",", ")", "]", "}", ";"):
                     break
                 m += 1
-            ed.insert(toks[body_first].start, ann + "            { ")
+            ed.insert(toks[body_first].start, ann + "            { " + ((cl.first_stmt + " ") if cl.first_stmt else ""))
             ed.insert(toks[m - 1].end, " }")
 
     # ---- rule R22 CLOSUREPAT: a closure that carries no contract and binds its argument by a pattern (`|(k, v)| e`, `|&x| e`) is given
